@@ -233,8 +233,10 @@ fn run(prefix: u8, segs: &[IgsSeg], alive: &[usize], rep: &Reporter) -> Run {
                 let mut n = 0;
                 loop {
                     if n >= cap {
-                        hit_cap = true;
-                        cap = 4;
+                        // the loop outlives the cap: stop following it (it stays pending in the parser, as under a terminal that
+                        // stops polling), so that the segments behind it are judged on their own
+                        hit_cap = cap > 0;
+                        cap = 0;
                         break;
                     }
                     let t0 = alloc::cpu_us();
@@ -610,9 +612,10 @@ pub fn seg_strategy() -> BoxedStrategy<IgsSeg> {
                 }
                 groups.push(g);
             }
+            // the declared count never exceeds the parameters that follow: the loop command ends inside its own segment
             let count = match cmode {
                 9 => 0,
-                8 => crand as usize,
+                8 => (crand as usize).min(per_group * ngroups),
                 _ => per_group * ngroups,
             };
             IgsSeg {
